@@ -306,6 +306,41 @@ def value_has_type(raw, t):
 
 # ------------------------------------------------------------------ broken texts (C14, C18)
 
+PAD_COUNTS = [12, 15, 16, 17, 20, 31, 33, 64, 65, 99, 100, 101, 130, 257]
+
+
+def pad_vars(text, rng, k=None):
+    """the same script with K more declared variables nobody uses (K around the sizes where tables, buffers and
+    limits of a checker would change behaviour): K more `unused variable` warnings, nothing else changes"""
+    k = k or rng.choice(PAD_COUNTS)
+    lines = "".join("  %s $pad_%d\n" % (rng.choice(TYPES), i) for i in range(k))
+    masked = strip_comments_mask(text)
+    m = re.match(r"\s*vars\s*\{[ \t]*\n?", masked)
+    if m:
+        # at the top, or at the bottom of the block
+        if rng.random() < 0.5:
+            return text[:m.end()] + lines + text[m.end():]
+        e = masked.find("}", m.end())
+        if e >= 0:
+            return text[:e] + "\n" + lines + text[e:]
+        return None
+    return "vars {\n" + lines + "}\n" + text
+
+
+def pad_text(text, rng, size=None):
+    """the same script made long: comment lines and blank lines in front of it or behind it, up to a few KiB / 64 KiB,
+    or one very long comment line (longer than the usual line buffers)"""
+    size = size or rng.choice([4096, 16384, 65536, 70000])
+    x = rng.random()
+    if x < 0.35:
+        pad = "//" + "x" * size + "\n"
+    elif x < 0.5:
+        pad = "/*" + "y" * size + "*/\n"
+    else:
+        pad = "".join("// line %d\n" % i if i % 3 else "\n" for i in range(size // 9))
+    return pad + text if rng.random() < 0.6 else text + ("\n" if not text.endswith("\n") else "") + pad
+
+
 TOKENS = ["vars", "{", "}", "(", ")", "[", "]", "send", "save", "source", "destination", "=", "from", "to", "max",
           "remaining", "kept", "allowing", "unbounded", "overdraft", "up", "*", "-", "+", ",", "@a", "@world", "$x", "$",
           "USD", "EUR/2", "10", "-3", "1/2", "1/0", "50%", "12.5%", '"str"', '"é"', "monetary", "account", "number",
